@@ -1,4 +1,5 @@
 #!/bin/bash
+export VERIF_NO_PRUNE=1   # several trees are analysed over time / in parallel: keep their caches (tools/prune_cache.sh cleans up)
 # tools/neutral_check.sh <patch.diff> [props...] — apply a behaviour-preserving refactor to /repo, run the checks (default: all,
 # quick tier), expect every one to stay silent; undo.  Prints the checks that raised a (false) alarm.
 P=$1; shift
